@@ -103,6 +103,34 @@ EXTRA = {
  "C20": (" Third session: style_temp_edit restores the object's own style however the drawing ends (regenerated try/finally skeleton).",
          " + generated skeleton of style_temp_edit (Gen/StyleTemp)"),
 }
+# additions of the fourth part of the third session (appended after EXTRA)
+EXTRA2 = {
+ "C01": (" Fourth part: far-field rows judged on their own scale against the quadrature of the defining integral (60 ... 700 source sizes).", ""),
+ "C02": (" Fourth part: polarization / magnetization state machine over the regenerated setter skeletons (excitation_sync for every assignment history; with the exported mu_0 iff the two constants agree, which they do not: the recorded finding as a theorem); the in_out keyword modelled for every magnet wrapper (B = mu H + J for every value); J / M in the observer frame end to end.",
+         " + generated setter skeletons and constants (Gen/ExcSync, Gen/InOut) + exc, l1*, batchio, level2-jm streams"),
+ "C03": (" Fourth part: covariance of the FINAL output after sumup / pixel_agg with any reduction / squeeze / dataframe, with a witness that aggregate-then-rotate is not covariant.", " + level2f stream (median / std / ptp / mean on rotated and left-handed sensors)"),
+ "C04": (" Fourth part: pixel_agg with any reduction = reduction of the sensor-frame values of the sensor's own pixels, end to end; short paths are edge-padded (witness against cyclic tiling).", " + level2f stream"),
+ "C05": (" Fourth part: sumup = sum over the source axis for any reduction (what it is not: witness sum_of_max_ne_max_of_sum); TriangularMesh linear in the polarization.", ""),
+ "C06": (" Fourth part: the vectorised elliptic-integral loop celv is row-wise, re-indexable and permutation-covariant; the n < 10 / n >= 10 dispatch agrees off the band 0 < |1-|kc|| <= 1e-6 (in-band difference as a theorem).", " + celbatch / el3batch rows"),
+ "C07": (" Fourth part: nested observer collections (pre-order sensor axis) in the oracle and the iface stream.", ""),
+ "C08": (" Fourth part: write-set / alias analysis of every function on the field-computation call path as a translator (264 functions, 417 mutation sites): every write goes to a fresh, a restored-temporary or a lazily created cell, and a heap theorem turns that into 'every pre-existing cell is unchanged at any exit'.",
+         " + generated write-set table (Gen/WriteSet) with a translator self-test against seven seeded variants on every run + freeze oracle (every pre-existing array read-only)"),
+ "C09": (" Fourth part: the six rotate_from_* entry points with scipy's conversion as a parameter reduce to rotate with the same start semantics; equal path lengths over the full operation set incl. add / remove.", " + rotfrom / add / remove ops in the path stream"),
+ "C10": (" Fourth part: any admissible history addressed to a collection refines the abstract spec (frame path + re-indexed relative paths); reset_path spelled out; the collection's own sensor reads the same after a rotation.", ""),
+ "C11": (" Fourth part: the *_all views are pre-order type filters in every reachable state; a rejected children / typed-setter assignment changes nothing (true since repo fix 9176cc9).", ""),
+ "C12": (" Fourth part: the pose machinery and the marshalling pipeline are homogeneous in lengths for every history (history_homogeneous, arrangement_unit_invariant); no absolute-length construct in the pose code (regenerated scan).",
+         " + generated absolute-length scan (Gen/AbsLen) + path-scale stream (every history again at 2^k, bit for bit)"),
+ "C13": (" Fourth part: np.unique / from_mesh / from_triangles / to_TriangleCollection modelled and field-preserving; meshes and tetrahedra glued along shared walls add; Triangle split along an edge additive up to the named solid-angle hypothesis.", " + mesh-unique stream"),
+ "C14": (" Fourth part: far boxes and loops (60 ... 190 source sizes) in the oracle.", ""),
+ "C15": (" Fourth part: celv terminates with the maximum of the entries' bounds and never returns when one modulus is 0 (the recorded Cylinder hang as a theorem).", ""),
+ "C16": (" Fourth part: the field is invariant under any permutation of faces, cyclic relabelling of a face, vertex renumbering and input flips (given a geometric seed verdict); the repaired seed rule keeps the own facet out of the touch band (seed_checkpoint_clears_own_plane; witness for the old rule).", " + meshperm stream + needle rows in the inwards stream"),
+ "C17": (" Fourth part: every public setter regenerated and shown to reject without change (validate-then-assign or assign-under-restore); constructor arguments reach their setters; pixel_agg, field_func, mesh modes, in_out, flags and style arguments modelled; missing dimension / excitation refused before any field function.",
+         " + generated setter trees and numpy name table (Gen/Setters, Gen/NpNames) + callargs stream"),
+ "C18": (" Fourth part: attributed forest with a heap of containers: copies equal in every attribute, share no container, and no later history on one side is visible on the other.", " + forestattr stream (container identities)"),
+ "C19": (" Fourth part: CylinderSegment graphic closed and consistently wound for every arc count (after repo fix 64dd71f); group_traces partitions its input by an injective key (after repo fix 4b91a64); every SI prefix displayed.", " + wind and group rows in the disp stream"),
+ "C20": (" Fourth part: style / defaults state machine over the regenerated schema: reset restores every default after any history, names outside the schema and method names rejected at any depth, rejected updates change nothing, objects independent, reachable states well formed.",
+         " + generated style schema (Gen/StyleSchema, 37 classes, probed validators) + sstate stream"),
+}
 props = [json.loads(l) for l in open("properties.jsonl")]
 checks = []
 na = []
@@ -111,7 +139,8 @@ for p in props:
     if i in TEXT:
         t = TEXT[i]
         ex = EXTRA.get(i, ("", ""))
-        t = (t[0] + ex[0], t[1], t[2] + ex[1])
+        ex2 = EXTRA2.get(i, ("", ""))
+        t = (t[0] + ex[0] + ex2[0], t[1], t[2] + ex[1] + ex2[1])
         checks.append({
             "property_id": i,
             "quick_cmd": f"{PY} check.py {i} --tier quick",
